@@ -613,6 +613,26 @@ pub fn probe(name: &str) -> Result<()> {
                 println!("fuel fault at transition {k}: mask1={:?} mask2={:?} commit(a)={:?} mask3={:?}", r1, r2, r3, r4);
             }
         }
+        "lazy_empty" => {
+            // documented in docs/syntax.md: `foo[lazy]: /.*/` will match only the empty string
+            for (canon, gtext) in [
+                (true, "start: foo \"x\"\nfoo[lazy]: /.*/"),
+                (false, "start: foo \"x\"\nfoo[lazy]: /.*/"),
+                (true, "start: \"q\" foo \"x\"\nfoo[lazy]: /a*/"),
+            ] {
+                let v = byte_vocab();
+                let env = make_tok_env(&v, canon);
+                let fac = make_factory(&env, &Some(vec![]), &LimitsSpec::default(), false)?;
+                let g = top_level_grammar(GKind::Lark, gtext)?;
+                let mut m = Matcher::new(fac.create_parser(g));
+                println!("canonical={canon} grammar={gtext:?}: construction error = {:?}", m.get_error().map(|e| short1(&e)));
+                let _ = m.consume_token(b'q' as u32);
+                let m2 = m.deep_clone();
+                println!("   compute_mask     -> {:?}", m.compute_mask().map(|x| x.to_list()).map_err(|e| short1(&e.to_string())));
+                let mut m = m2;
+                println!("   compute_ff_bytes -> {:?}; is_error={}", m.compute_ff_bytes(), m.is_error());
+            }
+        }
         _ => bail!("unknown probe"),
     }
     Ok(())
